@@ -160,7 +160,7 @@ PROPS = {
                 ("tie_GoHCloser_Closed", "CM.GoTie.GoHCloser.go_Closed_eq", "`Closed` likewise"),
                 ("tie_GoHCloser_Allow", "CM.GoTie.GoHCloser.go_Allow_eq", "`Allow` is the gate's `Check`"),
                 ("tie_GoHCloser_ShouldClose", "CM.GoTie.GoHCloser.go_ShouldClose_eq", "`ShouldClose` compares the successes in a row with the required number")]) + TC +
-            [C("close"), C("checkSuccess")] + CLOSER_CFG),
+            [C("close"), C("checkSuccess")] + CLOSER_CFG + K6_TC),
     "C04": ("the gauges and limits: `throttleConcurrentCommands`, the deferred decrements in `run` / `fallback`, the published limits",
             [C("throttleConcurrentCommands"), C("ConcurrentCommands"), C("ConcurrentFallbacks"), RUN, FALLBACK] + LIVECFG),
     "C05": ("the classification chain of `run`",
@@ -179,7 +179,7 @@ PROPS = {
     "C13": ("the rolling counter: rolling_bucket.go's `Advance` and rolling_counter.go's methods are the model `RC`", ROLL),
     "C14": ("the counter under interference: every atomic step of rolling_counter.go / rolling_bucket.go is the small-step model's", K6_RC + K6_CORE),
     "C15": ("rolling_percentile.go: the ring of circular buffers is the model `RP` / `DSlot`, the snapshot's numbers are the model `SD`", RPT + SD),
-    "C16": ("the gate: timedcheck.go's method bodies are the model `TC`", TC),
+    "C16": ("the gate: timedcheck.go's method bodies are the model `TC`", TC + K6_TC + K6_CORE),
     "C17": ("the registry: manager.go's CreateCircuit / GetCircuit / MustCreateCircuit are the model `Mgr`", MGR),
     "C20": ("the collectors' method bodies, translated from today's rolling.go / responsetime.go, are the model's functions",
             T("GoRunStats", evs("GoRunStats", "Cons.RunStats.onRun") + [
